@@ -37,14 +37,18 @@ man = {
          "kind_free_text": "TLC model checking of the state machine on bounded instances (MC_Lattice, MC_Grammar, MC_Outcome, MC_Seq, MC_Threads) with design-level invariants and emission of every transition"},
         {"name": "tlaps-aux", "path": "spec/ThreadsProof.tla", "serves_properties": ["C14"],
          "kind_free_text": "auxiliary TLAPS proof (55 obligations) of ModelReadOnly and ResultIsSequential of Threads.tla for any number of threads and reads"},
-        {"name": "apalache-aux", "path": "spec/OutcomeInt.tla", "serves_properties": ["C02", "C03", "C04", "C07"],
-         "kind_free_text": "auxiliary symbolic check (Apalache) of the outcome pipeline over unbounded integer rank values: pipeline = rule and order-only (C03), sort + un-sort restores every team and the ladder is symmetric (C02, C07), re-listing equivariance under the tie proviso (C04)"},
+        {"name": "apalache-aux", "path": "spec/OutcomeInt.tla", "serves_properties": ["C02", "C03", "C04", "C07", "C11"],
+         "kind_free_text": "auxiliary symbolic check (Apalache) of the outcome pipeline over unbounded integer rank values (and of predict_rank's ranking rule over any ordered values, C11): pipeline = rule and order-only (C03), sort + un-sort restores every team and the ladder is symmetric (C02, C07), re-listing equivariance under the tie proviso (C04)"},
         {"name": "tlc-trace-stages", "path": "spec/Stages.tla", "serves_properties": [],
-         "kind_free_text": "beyond the listed properties (./check stages, report in extra/stages.json): the helpers' observed arguments and results inside rate() against the operators of the specification that model those steps"},
+         "kind_free_text": "beyond the listed properties (./check stages, report in extra/stages.json): the helpers' observed arguments and results inside rate() and inside the three predictions against the operators of the specification that model those steps"},
+        {"name": "tlc-trace-extras", "path": "spec/Extras.tla", "serves_properties": [],
+         "kind_free_text": "beyond the listed properties (./check extras, report in extra/extras.json): text forms, team-rating objects, module-level helpers, inverse CDF and density, the MODELS registry, create_rating's error classes as rules (MC_Extras model-checks the rules against their definitions)"},
+        {"name": "tlc-mc-shared-args", "path": "spec/SharedArgs.tla", "serves_properties": ["C14"],
+         "kind_free_text": "TLC model checking of callers' threads that pass one outcome list object (no action writes it; negative control RelabelInPlace); bound to the code by a logging list in the thread scheduler and TraceThreads.tla"},
     ],
     "checks": [],
     "not_applicable": [],
-    "notes": "All checks: ./check <id> --tier quick|thorough. Exit 2 = machinery failure (never a VIOLATION line). Genuine defects repaired in /repo by four 'fix:' commits, see known_findings.json and DESIGN.md section 2.",
+    "notes": "All checks: ./check <id> --tier quick|thorough. Exit 2 = machinery failure (never a VIOLATION line). Genuine defects repaired in /repo by four 'fix:' commits, see known_findings.json and DESIGN.md section 2; one recorded finding (KF-C05-1, DESIGN 11.8). Beyond the list: ./check stages, ./check extras, ./check selftest (42 controls). Round 2 is DESIGN.md section 12.",
 }
 for pid in props:
     if pid in CHECKS:
